@@ -585,6 +585,7 @@ func (a *jwtAuthenticator) calculateCacheKey(ep *endpoint.Endpoint, renderedURL,
 	digest.Write(ep.Hash())
 	digest.Write(stringx.ToBytes(renderedURL))
 	digest.Write(stringx.ToBytes(reference))
+	digest.Write(ttlHash(a.ttl))
 
 	return hex.EncodeToString(digest.Sum(nil))
 }
